@@ -63,10 +63,37 @@ package interp
 //@ func mapfileSplit$1
 //@ props C28
 
+// readLine against the rule of the read builtin for one logical line: rlLine(S, raw, s, k) is the line built from the
+// bytes S[s..k) and rlEsc whether the last byte is an unpaired backslash (both uninterpreted; [read-line-start] and
+// [read-line-step] are their defining equations, assumed): without -r a backslash is kept and toggles the escape state,
+// an escaped newline is a line continuation that removes the backslash before it, any other byte is appended and
+// clears the state; with -r every byte but the newline is appended. S is the byte stream of the file and s the position
+// at entry (ghost fileStream/filePos, /verif/trusted/osfile.spec). The line returned at a newline is the line built
+// from the bytes before it; at an error or end of input, from all bytes delivered.
+// The deferred clean-up of readLine stops the context's AfterFunc and resets the read deadline of r.stdin: it calls a
+// function value of package context and (*os.File).SetReadDeadline, and writes no variable of the program.
+//@ func Runner.readLine$2
+//@ props C23 C28
+//@ trusted "calls stop() of context.AfterFunc, receives from stopc and resets the deadline of r.stdin; no program memory is written"
+//@ pure
+//@ spec rlLine(S string, raw bool, s int, k int) string
+//@ spec rlEsc(S string, raw bool, s int, k int) bool
+//@ spec bytesAre(b []byte, t string) bool = len(b) == len(t) && all(j, 0, len(b), b[j] == t[j])
 //@ func Runner.readLine
 //@ noauto
 //@ props C28 C23
+//@ assume [stream-position-in-range] 0 <= filePos && filePos <= 4611686018427387904
+//@ assume [read-line-start] rlLine(fileStream, raw, filePos, filePos) == "" && !rlEsc(fileStream, raw, filePos, filePos)
+//@ assume [read-line-step] forall(k, trig(fileStream[k], implies(k >= filePos,
+//@     ite(!raw && fileStream[k] == '\\', rlLine(fileStream, raw, filePos, k+1) == scat(rlLine(fileStream, raw, filePos, k), "\\") && rlEsc(fileStream, raw, filePos, k+1) == !rlEsc(fileStream, raw, filePos, k),
+//@     ite(!raw && fileStream[k] == '\n' && rlEsc(fileStream, raw, filePos, k), rlLine(fileStream, raw, filePos, k+1) == ssub(rlLine(fileStream, raw, filePos, k), 0, len(rlLine(fileStream, raw, filePos, k)) - 1) && !rlEsc(fileStream, raw, filePos, k+1),
+//@     ite(fileStream[k] == '\n', true,
+//@         rlLine(fileStream, raw, filePos, k+1) == scat(rlLine(fileStream, raw, filePos, k), bytestr(fileStream[k])) && !rlEsc(fileStream, raw, filePos, k+1)))))))
+//@ returns (out, err)
+//@ ensures [line-at-newline] implies(err == nil, filePos > old(filePos) && fileStream[filePos-1] == '\n' && bytesAre(out, rlLine(fileStream, raw, old(filePos), filePos - 1)))
+//@ ensures [line-at-end-of-input] implies(err != nil && old(r.stdin) != nil, bytesAre(out, rlLine(fileStream, raw, old(filePos), filePos)))
 //@ loop 1 invariant [esc-means-nonempty] implies(esc, len(line) > 0)
+//@ loop 1 invariant [line-is-spec] filePos >= old(filePos) && bytesAre(line, rlLine(fileStream, raw, old(filePos), filePos)) && esc == rlEsc(fileStream, raw, old(filePos), filePos)
 
 // ---- C33 call sites / C28: array element assignment. The Variable invariant (wfArr) is assumed for values that
 // come from the environment and must be re-established for what is stored back; the index passed to
